@@ -14,7 +14,8 @@ What is proved here, for every number of calls, every schedule and every step fu
   of steps — so each call returns exactly what it returns alone.
 * `no_shared_writes`: the hypothesis, on the code as it is now — the inventory regenerated from the Go
   source by /verif/extract lists no write to a package-level variable outside `init`, no write through a
-  pointer to an `ast` struct inside `internal/explain` / `ast`, no `go` statement and exactly the three
+  pointer to an `ast` struct inside `internal/explain` / `ast`, no `append` whose base may share its backing array
+  with a slice stored in the caller's AST (such an append writes into that array), no `go` statement and exactly the three
   package-level variables that are only initialised (`parser.intervalUnits`, `token.tokens`, `token.Keywords`).
   A change that introduces such a write makes this theorem fail to re-check (`lake build`).
 * `flag_interleaving_counterexample`: on the model of the pre-repair code (shared flag
@@ -60,7 +61,8 @@ theorem schedule_independent (sys : Sys S L) (σ : S) (s₁ s₂ : List Nat) (ls
 
 /-- The regenerated write inventory of the code as it is now. -/
 theorem no_shared_writes :
-    DC.Gen.Writes.globalWrites = [] ∧ DC.Gen.Writes.astWrites = [] ∧ DC.Gen.Writes.goStmts = [] ∧
+    DC.Gen.Writes.globalWrites = [] ∧ DC.Gen.Writes.astWrites = [] ∧ DC.Gen.Writes.aliasAppends = [] ∧
+    DC.Gen.Writes.goStmts = [] ∧
     DC.Gen.Writes.globalVars.map (·.2.2) = ["parser.intervalUnits", "token.tokens", "token.Keywords"] := by
   decide
 
